@@ -15,7 +15,8 @@
          dt <t> | dtc <t>        DROP TABLE | DROP TABLE … CASCADE (the same to the model: a table's indexes are part of it)
          cin <name> <t> a+b      CREATE UNIQUE INDEX <name> ON t (a, b) (the model does not know index names: the generator
                                  uses a name for one live index at a time)
-         vacuum                  VACUUM (no logical effect; generated only while no session is open)
+         vacuum                  VACUUM: every open transaction is rolled back (the engine leaks the session objects), no
+                                 other logical effect
          audit                   only as the last op: the final observation ends with `ix=<n>`, the number of live index
                                  relations = the number of keys of the live tables
          sel / ins / upd / del   as engine `hist`
@@ -95,7 +96,7 @@ def parseDStmt : List String → Option DStmt
 def parseDOp (ws : List String) : Option DOp :=
   match ws with
   | ["reopen"] => some (.reopen [])
-  | ["vacuum"] => some .tick
+  | ["vacuum"] => some (.reopen [])   -- VACUUM rolls back every open transaction (the session list is filled in by `runLine`)
   | "db" :: rest => (parseDStmt rest).map DOp.auto
   | [s, "begin"] => if sessName s then some (.begin s) else none
   | [s, "commit"] => if sessName s then some (.commit s) else none
